@@ -416,6 +416,51 @@ theorem dictCalls_le (g : DDag) : ∀ (f v : Nat) (k : Int), (dictCalls g f v k)
                   | raised s => rw [hb] at ihb; simp only [DRes.steps] at ihb ⊢; omega
                   | done s2 => rw [hb] at ihb; simp only [DRes.steps] at ihb ⊢; omega
 
+/-- a completed parse made exactly `4·(entries + stops) − 2` calls: the call tree is a full binary tree whose leaves are
+the result entries and the pruned edges -/
+theorem dictCalls_out (g : DDag) : ∀ (f v : Nat) (k : Int) (s : Nat), dictCalls g f v k = .done s →
+    s + 2 = 4 * ((dictOut g f v k).1 + (dictOut g f v k).2) := by
+  intro f
+  induction f with
+  | zero => intro v k s h; simp [dictCalls] at h
+  | succ n ih =>
+    intro v k s
+    unfold dictCalls dictOut
+    cases hv : g[v]? with
+    | none => simp
+    | some nd =>
+      simp only []
+      rcases hl : readLabel nd.bits k with ⟨l, it⟩
+      cases l with
+      | none => simp
+      | some l =>
+        simp only []
+        split
+        · intro h; cases h; rfl
+        · split
+          · intro h; cases h; rfl
+          · cases hk : nd.kids with
+            | nil => simp
+            | cons a rest =>
+              simp only []
+              cases ha : dictCalls g n a (k - (l : Int) - 1) with
+              | oof => simp
+              | raised s1 => simp
+              | done s1 =>
+                have iha := ih a _ s1 ha
+                cases rest with
+                | nil => simp
+                | cons b rest2 =>
+                  simp only []
+                  cases hb : dictCalls g n b (k - (l : Int) - 1) with
+                  | oof => simp
+                  | raised s2 => simp
+                  | done s2 =>
+                    have ihb := ih b _ s2 hb
+                    intro h
+                    cases h
+                    omega
+
 theorem unary_len : ∀ (r : Bits) (n : Nat) (rest : Bits), unary r = some (n, rest) → n + rest.length + 1 = r.length := by
   intro r
   induction r with
@@ -450,6 +495,76 @@ theorem readLabel_iters (bits : Bits) (m : Int) : (readLabel bits m).2 ≤ bits.
   | true :: false :: r => simp only []; split <;> simp
   | [true, true] => simp
   | true :: true :: _ :: r => simp only []; split <;> simp
+
+/-- `dictParse` (calls + unary-loop iterations) against `dictCalls` (calls only): same outcome, at most `1 + B` times the steps
+when no cell has more than `B` bits -/
+def DRel (B : Nat) (p c : DRes) : Prop :=
+  match p, c with
+  | .done a, .done b => a ≤ b * (1 + B)
+  | .raised a, .raised b => a ≤ b * (1 + B)
+  | .oof, .oof => True
+  | _, _ => False
+
+theorem dictParse_rel (g : DDag) (B : Nat) (hB : ∀ nd ∈ g, nd.bits.length ≤ B) :
+    ∀ (f v : Nat) (k : Int), DRel B (dictParse g f v k) (dictCalls g f v k) := by
+  intro f
+  induction f with
+  | zero => intro v k; simp [dictParse, dictCalls, DRel]
+  | succ n ih =>
+    intro v k
+    unfold dictParse dictCalls
+    cases hv : g[v]? with
+    | none => simp [DRel]
+    | some nd =>
+      have hbits : nd.bits.length ≤ B := hB nd (List.mem_of_getElem? hv)
+      simp only []
+      have hit := readLabel_iters nd.bits k
+      rcases hl : readLabel nd.bits k with ⟨l, it⟩
+      rw [hl] at hit
+      simp only [] at hit
+      have e2 : 2 * (1 + B) = 2 + 2 * B := by omega
+      cases l with
+      | none => simp only [DRel]; omega
+      | some l =>
+        simp only []
+        split
+        · simp only [DRel]; omega
+        · split
+          · simp only [DRel]; omega
+          · cases hk : nd.kids with
+            | nil => simp only [DRel]; omega
+            | cons a rest =>
+              simp only []
+              have iha := ih a (k - (l : Int) - 1)
+              cases ha : dictCalls g n a (k - (l : Int) - 1) with
+              | oof =>
+                rw [ha] at iha
+                cases hpa : dictParse g n a (k - (l : Int) - 1) <;> rw [hpa] at iha <;> simp only [DRel] at iha ⊢
+              | raised c1 =>
+                rw [ha] at iha
+                cases hpa : dictParse g n a (k - (l : Int) - 1) <;> rw [hpa] at iha <;> simp only [DRel] at iha ⊢
+                rw [Nat.add_mul]; omega
+              | done c1 =>
+                rw [ha] at iha
+                cases hpa : dictParse g n a (k - (l : Int) - 1) <;> rw [hpa] at iha <;> simp only [DRel] at iha ⊢
+                rename_i p1
+                cases rest with
+                | nil => simp only [DRel]; rw [Nat.add_mul]; omega
+                | cons b rest2 =>
+                  simp only []
+                  have ihb := ih b (k - (l : Int) - 1)
+                  cases hb : dictCalls g n b (k - (l : Int) - 1) with
+                  | oof =>
+                    rw [hb] at ihb
+                    cases hpb : dictParse g n b (k - (l : Int) - 1) <;> rw [hpb] at ihb <;> simp only [DRel] at ihb ⊢
+                  | raised c2 =>
+                    rw [hb] at ihb
+                    cases hpb : dictParse g n b (k - (l : Int) - 1) <;> rw [hpb] at ihb <;> simp only [DRel] at ihb ⊢
+                    rw [Nat.add_mul, Nat.add_mul]; omega
+                  | done c2 =>
+                    rw [hb] at ihb
+                    cases hpb : dictParse g n b (k - (l : Int) - 1) <;> rw [hpb] at ihb <;> simp only [DRel] at ihb ⊢
+                    rw [Nat.add_mul, Nat.add_mul]; omega
 
 /-! ## TL parser: the loops never exhaust their own fuel -/
 open TonVerif.Model.Cost.Tl
